@@ -25,6 +25,7 @@ _RealThread = threading.Thread
 EPOCH = 1_000_000_000.0  # 2001-09-09T01:46:40Z
 import os as _os
 DEBUG_YIELDS = bool(_os.environ.get("VERIF_DEBUG_YIELDS"))
+HANG_WALL_S = float(_os.environ.get("VERIF_HANG_WALL_S", "12"))
 
 
 class SimAbort(BaseException):
@@ -163,6 +164,8 @@ class Sim:
         self.history = []  # (kind, detail...) tuples for the event-log digest
         self.switch_trace = []
         self.harness_error = None
+        self.hung = None
+        self.hung_where = ""
         self.on_switch = None  # hook(old_actor, new_actor) for process memory swap
         self.proc_of_main = 0
 
@@ -287,10 +290,38 @@ class Sim:
         self.current = nxt
         nxt.lock.release()
         if wait:
-            me.lock.acquire()
+            if me.is_main:
+                self._main_wait()
+            else:
+                me.lock.acquire()
             # running again
             if self.aborted and not me.is_main:
                 raise SimAbort()
+
+    def _main_wait(self):
+        """The main thread waits for the baton; meanwhile it watches for a worker
+        that burns CPU without ever reaching a yield point (an infinite loop in the
+        system under test) and unwinds it with an asynchronous SimAbort."""
+        last = (self.steps, self.switches)
+        while not self.main.lock.acquire(timeout=HANG_WALL_S):
+            now = (self.steps, self.switches)
+            if now != last:
+                last = now
+                continue
+            cur = self.current
+            if self.aborted or cur is None or cur.is_main or cur.thread is None:
+                continue
+            self.aborted = "cpu-hang"
+            self.hung = cur
+            try:
+                import traceback
+                fr = sys._current_frames().get(cur.thread.ident)
+                self.hung_where = "".join(traceback.format_stack(fr)[-5:]) if fr is not None else ""
+            except Exception:
+                self.hung_where = ""
+            import ctypes
+            ctypes.pythonapi.PyThreadState_SetAsyncExc(ctypes.c_ulong(cur.thread.ident),
+                                                       ctypes.py_object(SimAbort))
 
     def yield_point(self, kind=""):
         me = self.me()
